@@ -13,6 +13,94 @@ pub fn check(c: &Case) -> CheckResult {
     tablehist::check(c, Mode::C06)
 }
 
+// ---------------------------------------------------------------------------
+// the change stream as a registered session receives it from the daemon's TableManager
+// (TableShard::distribute_update decides who is sent what)
+// ---------------------------------------------------------------------------
+
+pub const TM_RULE: &str = "tm-stream: TableManager histories (3 peers, IPv4 / IPv6 prefixes, 2 path ids, inserts, removes, peer loss, stale marking and purge, import-policy soft resets, next-hop reports) with a consumer registered the way a session registers (no Add-Path receive families: a send-only Add-Path neighbour). The consumer applies every notification flagged any_changed (its ranked path list replaces what it held for the prefix); after every step what it holds equals the RIB's exportable paths (collect_loc_rib_paths) prefix by prefix, and a consumer that applies only best_changed notifications holds the RIB's best path. non-trivial := a step changes a prefix's path list without changing its best path";
+
+#[derive(Clone, Debug, serde::Serialize, serde::Deserialize)]
+pub struct TmCase {
+    pub ops: Vec<crate::props::tmrig::TmOp>,
+}
+
+pub fn check_tm(c: &TmCase) -> CheckResult {
+    use crate::event::ToPeerEvent;
+    use crate::props::tmrig::Rig;
+    use rustybgp_packet::Family;
+    use std::collections::BTreeMap;
+    use std::net::IpAddr;
+    type PathKey = (IpAddr, u32, Option<IpAddr>, Vec<u8>);
+    let key = |p: &rustybgp_table::Path| -> PathKey { (p.source.remote_addr, p.local_path_id, p.nexthop.map(|n| n.addr()), p.attr.iter().flat_map(|a| a.encode_to_bytes()).collect()) };
+    let rig = Rig::new(false);
+    let mut rx = rig.tm.register_peer("10.0.9.9".parse().unwrap(), Default::default(), |_| {});
+    let mut all: BTreeMap<String, Vec<PathKey>> = BTreeMap::new();
+    let mut best: BTreeMap<String, Option<PathKey>> = BTreeMap::new();
+    let mut info = CaseInfo::trivial();
+    for (i, op) in c.ops.iter().enumerate() {
+        rig.apply(op);
+        while let Ok(ev) = rx.try_recv() {
+            if let ToPeerEvent::NlriChange(ch) = ev {
+                let k = format!("{:?}|{:?}", ch.family, ch.net);
+                if ch.any_changed {
+                    all.insert(k.clone(), ch.current_paths.iter().map(key).collect());
+                    if !ch.best_changed {
+                        info.nontrivial = true;
+                        info.classes.push("path-list-changes-best-does-not");
+                    }
+                }
+                if ch.best_changed {
+                    best.insert(k, ch.current_paths.first().map(key));
+                }
+            }
+        }
+        for family in [Family::IPV4, Family::IPV6] {
+            let truth: BTreeMap<String, Vec<PathKey>> = rig.tm.collect_loc_rib_paths(family).iter().map(|ch| (format!("{:?}|{:?}", ch.family, ch.net), ch.current_paths.iter().map(key).collect())).collect();
+            let fam = format!("{family:?}|");
+            let keys: std::collections::BTreeSet<&String> = truth.keys().chain(all.keys().filter(|k| k.starts_with(&fam))).chain(best.keys().filter(|k| k.starts_with(&fam))).collect();
+            for k in keys {
+                let t = truth.get(k).cloned().unwrap_or_default();
+                let mut have = all.get(k).cloned().unwrap_or_default();
+                let mut want = t.clone();
+                have.sort();
+                want.sort();
+                if have != want {
+                    return Err(Failure::new("fold-addpath", format!("step #{i} ({op:?}): a registered session that applies every any_changed notification holds {} paths for {k}, the RIB has {} exportable paths (or different ones)", have.len(), want.len())).with("op", "tm"));
+                }
+                let b = best.get(k).cloned().flatten();
+                if b != t.first().cloned() {
+                    return Err(Failure::new("fold-best", format!("step #{i} ({op:?}): a registered session that applies only best_changed notifications holds {:?} as best of {k}, the RIB's best is {:?}", b.as_ref().map(|x| (x.0, x.1)), t.first().map(|x| (x.0, x.1)))).with("op", "tm"));
+                }
+            }
+        }
+    }
+    Ok(info)
+}
+
+pub fn arb_tm_case() -> impl proptest::strategy::Strategy<Value = TmCase> {
+    use crate::props::tmrig::TmOp;
+    use proptest::prelude::*;
+    let op = prop_oneof![
+        12 => (0u8..3, 0u8..10, 0u8..2, 0u8..6, 0u8..3).prop_map(|(peer, prefix, path_id, attrs, nh)| TmOp::Insert { peer, prefix, path_id, attrs, nh }),
+        5 => (0u8..3, 0u8..10, 0u8..2).prop_map(|(peer, prefix, path_id)| TmOp::Remove { peer, prefix, path_id }),
+        1 => (0u8..3).prop_map(|peer| TmOp::DropPeer { peer }),
+        1 => (0u8..3).prop_map(|peer| TmOp::MarkStale { peer }),
+        1 => (0u8..3).prop_map(|peer| TmOp::DropStale { peer }),
+        2 => (0u8..3, 0u8..3).prop_map(|(peer, policy)| TmOp::SoftResetIn { peer, policy }),
+        3 => (0u8..3, any::<bool>()).prop_map(|(nh, reachable)| TmOp::NhReach { nh, reachable }),
+    ];
+    // few prefixes so that paths meet
+    (0u8..8, proptest::collection::vec(op, 1..24)).prop_map(|(base, mut ops)| {
+        for o in ops.iter_mut() {
+            if let TmOp::Insert { prefix, .. } | TmOp::Remove { prefix, .. } = o {
+                *prefix = base + (*prefix % 3);
+            }
+        }
+        TmCase { ops }
+    })
+}
+
 pub fn run(r: &Run) {
     r.set_rule(RULE);
     r.assume("deferral of a family starts only on an empty table (restarting speaker at start-up), as start_deferral_families is used");
@@ -20,9 +108,14 @@ pub fn run(r: &Run) {
     r.assume("add-path consumer is compared as a set of paths (order among equally ranked paths is not fixed by the statement)");
     r.prop("histories", r.tier.pick(60_000, 2_000_000), || tablehist::arb_case(r.tier.pick(40, 120), false), check);
     r.prop("histories-with-limits", r.tier.pick(20_000, 500_000), || tablehist::arb_case(r.tier.pick(40, 120), true), check);
+    r.assume(TM_RULE);
+    r.prop("tm-stream", r.tier.pick(60_000, 1_500_000), arb_tm_case, check_tm);
 }
 
-pub fn replay(_sub: &str, case: &Value) -> Result<CheckResult, String> {
+pub fn replay(sub: &str, case: &Value) -> Result<CheckResult, String> {
+    if sub == "tm-stream" {
+        return Ok(check_tm(&decode_case(case)?));
+    }
     let c: Case = decode_case(case)?;
     Ok(check(&c))
 }
